@@ -156,7 +156,9 @@ def run_bnd(W, cfg):
         st = H.boundary_slice(y, threshold=t)
         W.ob('boundary_slice with a threshold', [st[0].start, st[0].stop, st[1].start, st[1].stop], [sb[0], sb[1] + 1, sb[2], sb[3] + 1])
     # centroid = sum(i w)/sum(w)
+    x_before = x.copy()
     cr, cc = lt.centroid(x)
+    W.ob('centroid leaves the caller\'s image as it was', x, x_before)
     tot = W.sum(x[r, c] for r, c in sup)
     W.ob('centroid row', cr * tot, W.sum(r * x[r, c] for r, c in sup))
     W.ob('centroid col', cc * tot, W.sum(c * x[r, c] for r, c in sup))
